@@ -279,3 +279,86 @@ theorem extent_cost_pos (s : Length) : ts_subtree__error_extent_cost s > 0 := by
   omega
 
 end TsVerif.C02
+
+namespace TsVerif.C02
+open TsGen TsVerif
+
+/-! ## Text: measuring byte strings, trees that spell a text -/
+
+/-- Row/column advance of one byte: a newline (10) starts a new row, anything else is a column. -/
+def charExtent (b : Nat) : TSPoint := if b = 10 then ⟨1, 0⟩ else ⟨0, 1⟩
+
+/-- Extent of a byte string: the position reached from 0:0 by counting newlines. -/
+def extentOf : List Nat → TSPoint
+  | [] => ⟨0, 0⟩
+  | b :: rest => point_add (charExtent b) (extentOf rest)
+
+/-- A byte string measured the way the lexer measures tokens. -/
+def measure (s : List Nat) : Length := ⟨s.length, extentOf s⟩
+
+/-- Row/column of byte offset `i` of `text` obtained by counting newlines. -/
+def posAt (text : List Nat) (i : Nat) : Length := measure (text.take i)
+
+theorem point_add_zero_left (p : TSPoint) : point_add ⟨0, 0⟩ p = p := by
+  cases p with
+  | mk r c =>
+    unfold point_add point__new
+    by_cases h : r > 0
+    · simp [h]
+    · have : r = 0 := by omega
+      simp [this]
+
+theorem extentOf_append : ∀ (a b : List Nat), extentOf (a ++ b) = point_add (extentOf a) (extentOf b)
+  | [], b => by simp [extentOf, point_add_zero_left]
+  | x :: a, b => by
+    simp only [List.cons_append, extentOf]
+    rw [extentOf_append a b, point_add_assoc]
+
+/-- Counting from the left: appending one byte moves to the next row on a newline, else one column. -/
+theorem extentOf_snoc (a : List Nat) (b : Nat) :
+    extentOf (a ++ [b]) = if b = 10 then ⟨(extentOf a).row + 1, 0⟩ else ⟨(extentOf a).row, (extentOf a).column + 1⟩ := by
+  rw [extentOf_append]
+  simp only [extentOf, charExtent]
+  by_cases h : b = 10
+  · simp [h, point_add, point__new]
+  · simp [h, point_add, point__new]
+
+theorem measure_append (a b : List Nat) : measure (a ++ b) = length_add (measure a) (measure b) := by
+  simp [measure, length_add, extentOf_append]
+
+theorem length_add_zero_left (a : Length) : length_add length_zero a = a := by
+  cases a with
+  | mk b e => simp [length_add, length_zero, point_add_zero_left]
+
+mutual
+  /-- `Yields t s`: the tree spells the byte string `s` — every leaf's padding and size are the
+  measures of two consecutive pieces of text, inner nodes concatenate their children. -/
+  inductive Yields : Tree → List Nat → Prop
+    | leaf (d : NodeData) (p s : List Nat) : d.padding = measure p → d.size = measure s → Yields (.mk d []) (p ++ s)
+    | node (d : NodeData) (c : Tree) (rest : List Tree) (s : List Nat) : YieldsL (c :: rest) s → Yields (.mk d (c :: rest)) s
+  inductive YieldsL : List Tree → List Nat → Prop
+    | nil : YieldsL [] []
+    | cons (c : Tree) (rest : List Tree) (s1 s2 : List Nat) : Yields c s1 → YieldsL rest s2 → YieldsL (c :: rest) (s1 ++ s2)
+end
+
+mutual
+  /-- Every node of the subtree laid out at `pos` has start and end positions (computed the way
+  node.c computes them, by `length_add` along the path) equal to the byte offset together with the
+  row/column obtained by counting newlines in `text` up to that offset. -/
+  def AllAt (text : List Nat) : Tree → Length → Prop
+    | .mk d kids, pos =>
+      length_add pos d.padding = posAt text (pos.bytes + d.padding.bytes) ∧
+      length_add (length_add pos d.padding) d.size = posAt text (pos.bytes + d.padding.bytes + d.size.bytes) ∧
+      AllAtL text kids pos
+  def AllAtL (text : List Nat) : List Tree → Length → Prop
+    | [], _ => True
+    | c :: rest, cur => AllAt text c cur ∧ AllAtL text rest (length_add cur c.totalSize)
+end
+
+theorem posAt_prefix (a b : List Nat) : posAt (a ++ b) a.length = measure a := by
+  simp [posAt]
+
+theorem measure_bytes (s : List Nat) : (measure s).bytes = s.length := rfl
+
+
+end TsVerif.C02
